@@ -157,6 +157,13 @@ func (c *Controller) Release(actor, point string) bool {
 	return true
 }
 
+// Pass lets actor go through point once without parking (pre-release).
+func (c *Controller) Pass(actor, point string) {
+	c.mu.Lock()
+	c.open[parkKey{actor, point}]++
+	c.mu.Unlock()
+}
+
 // Seen reports whether an event (actor, point) with Seq > after has been logged.
 func (c *Controller) seenLocked(actor, point string, after int) bool {
 	for i := len(c.events) - 1; i >= 0; i-- {
